@@ -136,6 +136,12 @@ func c19Decorate(p []byte, decor string) []byte {
 		return append(append(append([]byte{}, p...), '\n'), hx.PoolKey("ecdsa-p256-1").PKCS8PEM()...)
 	case "blank-lines":
 		return append([]byte("\n\n\n"), append(append([]byte{}, p...), '\n', '\n')...)
+	case "pem-headers":
+		// RFC 1421 header lines in front of the body (a comment, as some tools write it): the same key
+		if blk, _ := pem.Decode(p); blk != nil {
+			blk.Headers = map[string]string{"Comment": "build key 2024", "Owner": "release engineering"}
+			return pem.EncodeToMemory(blk)
+		}
 	}
 	return p
 }
@@ -171,6 +177,33 @@ func c19LoadWith(key *intoto.Key, data []byte, loader, scheme string, algs []str
 			return fmt.Errorf("harness: %v", e), nil
 		}
 		return key.LoadKeyDefaults(path), nil
+	case "reader-positioned", "reader-positioned-defaults":
+		// the reader stands behind content that was consumed before (another key of a bundle, a header the
+		// caller parsed himself): what is loaded is what is still to be read
+		front := append(append([]byte{}, hx.PoolKey("ecdsa-p256-1").PKIXPEM()...), []byte("-- next key --\n")...)
+		rd := bytes.NewReader(append(append([]byte{}, front...), data...))
+		if _, e := rd.Seek(int64(len(front)), io.SeekStart); e != nil {
+			return fmt.Errorf("harness: %v", e), nil
+		}
+		var src io.Reader = rd
+		if len(data)%2 == 0 {
+			f, e := os.Create(path)
+			if e != nil {
+				return fmt.Errorf("harness: %v", e), nil
+			}
+			defer f.Close()
+			if _, e := f.Write(append(append([]byte{}, front...), data...)); e != nil {
+				return fmt.Errorf("harness: %v", e), nil
+			}
+			if _, e := f.Seek(int64(len(front)), io.SeekStart); e != nil {
+				return fmt.Errorf("harness: %v", e), nil
+			}
+			src = f
+		}
+		if loader == "reader-positioned" {
+			return key.LoadKeyReader(src, scheme, algs), nil
+		}
+		return key.LoadKeyReaderDefaults(src), nil
 	case "reader":
 		return key.LoadKeyReader(c19Reader(data), scheme, algs), nil
 	default:
@@ -233,8 +266,8 @@ func c19Gen(t *rapid.T) c19Case {
 	}
 	c.Index = rapid.IntRange(0, nIdx-1).Draw(t, "index")
 	forms := c19Forms(c.Kind)
-	decors := []string{"none", "none", "leading", "crlf", "trailing-block", "trailing-text", "blank-lines", "trailing-key", "trailing-private-key"}
-	loaders := []string{"file", "file-defaults", "reader", "reader-defaults"}
+	decors := []string{"none", "none", "leading", "crlf", "trailing-block", "trailing-text", "blank-lines", "trailing-key", "trailing-private-key", "pem-headers"}
+	loaders := []string{"file", "file-defaults", "reader", "reader-defaults", "reader-positioned", "reader-positioned-defaults"}
 	load := func(l string) c19Load {
 		return c19Load{Form: rapid.SampledFrom(forms).Draw(t, l+"form"), Decor: rapid.SampledFrom(decors).Draw(t, l+"decor"), Loader: rapid.SampledFrom(loaders).Draw(t, l+"loader")}
 	}
@@ -296,9 +329,10 @@ func c19Run(c c19Case, r *hx.Rec) error {
 		if e != nil {
 			return false, false, fmt.Errorf("harness: %v", e)
 		}
-		explicit = c.Scheme != "" && (l.Loader == "file" || l.Loader == "reader")
+		needsScheme := l.Loader == "file" || l.Loader == "reader" || l.Loader == "reader-positioned"
+		explicit = c.Scheme != "" && needsScheme
 		scheme, algs := c.Scheme, c.Algs
-		if !explicit && (l.Loader == "file" || l.Loader == "reader") {
+		if !explicit && needsScheme {
 			// the non-default loaders need explicit values: hand over the documented defaults
 			scheme, algs = hx.DefaultScheme(k.Type), hx.DefaultKeyIDHashAlgorithms
 		}
